@@ -10,13 +10,16 @@
       - it is in flight in a thread that owns a thread record (between retire() and the push; between stage 2 of a
         scan and the disposer call; being moved by help_scan).
     [dhp_retired_conserved_detached]: when no record is owned (every thread detached), the third case is empty.
+    [dhp_oob_false]: the out-of-bounds flag of the model is never set; [..._nooob]: the two theorems without that hypothesis.
+    [dhp_scan_begins_with_own_retired] / [dhp_scan_begins_own_rinv]: at "_scanb r" everything the scanning thread retired
+    since its last "_att" event and that is not disposed is below the cursor of the (well-formed) retired array of r.
     The invariant is LV.Proofs.DhpConsInv (JW with its converse JC); the free-list hypothesis is discharged by
     LV.Proofs.DhpFlThm.dhp_flbad_false. *)
 From Coq Require Import ZArith NArith List String Bool Lia PeanoNat.
 From LV Require Import Base.Conc Base.Events Model.DhpLang Model.Dhp Proofs.DhpBase Proofs.DhpSeq Proofs.DhpSeqThm Proofs.DhpHist
   Proofs.DhpLangProofs Proofs.DhpInvB Proofs.DhpConsInv Proofs.DhpConsQuietB Proofs.DhpConsQuietB2 Proofs.DhpConsRulesB Proofs.DhpConsMainC
   Proofs.DhpProofsC02 Proofs.DhpProofsC03.
-From LV Require Proofs.DhpFlThm.
+From LV Require Proofs.DhpFlThm Proofs.DhpConsSTrace Proofs.DhpConsSTrace2.
 Import ListNotations.
 
 Definition auxb0 : AuxB := mkAuxB (fun _ => vb0) (fun _ => RNone) (fun _ => LNo) (fun _ => []) (fun _ => 0) (fun _ => 0) (fun _ => false) [].
@@ -37,6 +40,8 @@ Proof.
     + intros p. cbn. congruence.
     + intros t r. cbn. discriminate.
     + intros _. constructor; cbn; try (intros; discriminate); try (intros; lia); try (intros; congruence); try (intros; contradiction).
+    + reflexivity.
+    + constructor; cbn; intros; discriminate.
 Qed.
 
 (** retire() is called by attached threads only: a syntactic condition on the client programs *)
@@ -77,14 +82,60 @@ Section Cons.
     apply (DhpFlThm.dhp_flbad_false fuel c ths conf H4 Ho Ht Hn Hr).
   Qed.
 
+  (** the model's out-of-bounds flag is never set: no retired cell is written outside its block, no pointer is pushed
+      into a record without retired array (the thread-local knowledge [vb_arr] of LV.Proofs.DhpConsInv) *)
+  Theorem dhp_oob_false : oob (Conc.shared conf) = false.
+  Proof. destruct reach_JB as (a & [_ _ _ [_ _ _ _ _ _ _ W8]]). exact W8. Qed.
+
+  (** ** the ownership invariant behind "a scan frees what no guard holds": at the beginning of every scan ("_scanb r" is
+         the last event of the trace: the configuration right after the step that emits it), every object the scanning
+         thread has handed to retire() since its last "_att" event (which was for the scanned record r) and that is not
+         yet disposed is below the cursor of the retired array of r -- the cells stage 2 of this scan goes through *)
+  Lemma dhp_scan_begins_own_rinv : forall tr0 tr1 t r,
+    Conc.trace conf = tr0 ++ (t, ev_att r) :: tr1 ++ [(t, ev_scanb r)] ->
+    (forall e, In e tr1 -> fst e = t -> forall r', classify (snd e) <> HAtt r') ->
+    forall p, In p (flat_map (fun e => if Nat.eqb (fst e) t then DhpProofsC03.retired_ev (snd e) else []) tr1) ->
+    ~ In p (disposed_of (Conc.trace conf)) ->
+    exists chain w, Rinv c (Conc.shared conf) r chain w /\ In p (content (Conc.shared conf) chain w).
+  Proof.
+    intros tr0 tr1 t r Etr Hna p Hp Hnd'. destruct reach_JB as (a & [O1 K1 R1 [W1 W2 W3 W4 W5 W6 W7 W8 [H1 H2 H3]]]).
+    destruct (W7 W8) as [C1 C2 C3 C4 C5 C6 C7]. set (g := Conc.shared conf) in *. set (T := Conc.trace conf) in *.
+    assert (ET : T = (tr0 ++ (t, ev_att r) :: tr1) ++ [(t, ev_scanb r)]) by (rewrite Etr, <- app_assoc; reflexivity).
+    assert (Hl : DhpConsSTrace.lsb T t = Some r) by (rewrite ET, DhpConsSTrace.lsb_snoc, classify_scanb; reflexivity).
+    destruct (H3 t r (H2 t r Hl)) as (Hpe & Hfr & Hmi). destruct (H1 t r Hmi) as (Hown & _ & X3).
+    assert (Hin : In p (DhpConsSTrace.mine T t)).
+    { rewrite ET, DhpConsSTrace.mine_snoc, classify_scanb. cbn [app].
+      replace (tr0 ++ (t, ev_att r) :: tr1) with ((tr0 ++ [(t, ev_att r)]) ++ tr1) by (rewrite <- app_assoc; reflexivity).
+      rewrite DhpConsSTrace.mine_app, DhpConsSTrace.mine_snoc, classify_att.
+      apply DhpConsSTrace2.mine_fold_in; [exact Hna|]. right. exact Hp. }
+    destruct (X3 p Hin) as [Ew|[Ew|Ew]].
+    - destruct (C2 p r Ew) as (Hlt & Hi). destruct R1 as [R1 _ _ _ _ _].
+      assert (Hne : rch a r <> []). { intros E. unfold ec, content, flat in Hi. rewrite E in Hi. cbn in Hi. rewrite firstn_nil, skipn_nil in Hi. contradiction. }
+      destruct (R1 r Hlt) as [(E & _)|(_ & I & _)]; [contradiction|].
+      exists (rch a r), (rw a r). split; [exact I|]. unfold ec in Hi. eapply in_skipn; eauto.
+    - exfalso. destruct (C3 p t Ew) as ([X|X] & _); [congruence|rewrite Hfr in X; contradiction].
+    - exfalso. apply Hnd'. apply (C4 p Ew).
+  Qed.
+
+  Theorem dhp_scan_begins_with_own_retired : forall tr0 tr1 t r,
+    Conc.trace conf = tr0 ++ (t, ev_att r) :: tr1 ++ [(t, ev_scanb r)] ->
+    (forall e, In e tr1 -> fst e = t -> forall r', classify (snd e) <> HAtt r') ->
+    forall p, In p (flat_map (fun e => if Nat.eqb (fst e) t then DhpProofsC03.retired_ev (snd e) else []) tr1) ->
+    ~ In p (disposed_of (Conc.trace conf)) ->
+    In p (seq_final c r (Conc.shared conf)).
+  Proof.
+    intros tr0 tr1 t r Etr Hna p Hp Hnd'. destruct (dhp_scan_begins_own_rinv tr0 tr1 t r Etr Hna p Hp Hnd') as (chain & w & I & Hi).
+    rewrite (seq_final_content c ltac:(lia) H4 _ r _ _ I). exact Hi.
+  Qed.
+
   Theorem dhp_retired_conserved : oob (Conc.shared conf) = false ->
     forall p, In p (flat_map (fun e => DhpProofsC03.retired_ev (snd e)) (Conc.trace conf)) ->
       In p (disposed_of (Conc.trace conf)) \/
       (exists r, on_tlist (Conc.shared conf) r /\ In p (seq_final c r (Conc.shared conf))) \/
       (exists r, r < List.length (recs (Conc.shared conf)) /\ r_tid (grec (Conc.shared conf) r) <> 0).
   Proof.
-    intros Hoob p Hp. destruct reach_JB as (a & [O1 K1 R1 [W1 W2 W3 W4 W5 W6 W7]]).
-    destruct (W7 Hoob) as [C1 C2 C3 C4 C5 C6]. set (g := Conc.shared conf) in *.
+    intros Hoob p Hp. destruct reach_JB as (a & [O1 K1 R1 [W1 W2 W3 W4 W5 W6 W7 W8 W9]]).
+    destruct (W7 Hoob) as [C1 C2 C3 C4 C5 C6 C7]. set (g := Conc.shared conf) in *.
     pose proof (C1 p Hp) as Hw. destruct (wh a p) as [|r|t|] eqn:Ew; [congruence| | |].
     - right. left. destruct (C2 p r Ew) as (Hlt & Hin). exists r.
       assert (Hne : rch a r <> []). { intros E. unfold ec, content, flat in Hin. rewrite E in Hin. cbn in Hin. rewrite firstn_nil, skipn_nil in Hin. contradiction. }
@@ -99,6 +150,12 @@ Section Cons.
 
   (** when no thread record is owned (every thread has detached, or never attached), every retired object has been
       disposed or waits in the retired array of a record on thread_list_, where ~smr will free it *)
+  Theorem dhp_retired_conserved_nooob : forall p, In p (flat_map (fun e => DhpProofsC03.retired_ev (snd e)) (Conc.trace conf)) ->
+      In p (disposed_of (Conc.trace conf)) \/
+      (exists r, on_tlist (Conc.shared conf) r /\ In p (seq_final c r (Conc.shared conf))) \/
+      (exists r, r < List.length (recs (Conc.shared conf)) /\ r_tid (grec (Conc.shared conf) r) <> 0).
+  Proof. exact (dhp_retired_conserved dhp_oob_false). Qed.
+
   Corollary dhp_retired_conserved_detached : oob (Conc.shared conf) = false ->
     (forall r, r < List.length (recs (Conc.shared conf)) -> r_tid (grec (Conc.shared conf) r) = 0) ->
     forall p, In p (flat_map (fun e => DhpProofsC03.retired_ev (snd e)) (Conc.trace conf)) ->
@@ -107,4 +164,11 @@ Section Cons.
   Proof.
     intros Hoob H0 p Hp. destruct (dhp_retired_conserved Hoob p Hp) as [H|[H|(r & H1 & H2)]]; auto. exfalso. apply H2. now apply H0.
   Qed.
+
+  Corollary dhp_retired_conserved_detached_nooob :
+    (forall r, r < List.length (recs (Conc.shared conf)) -> r_tid (grec (Conc.shared conf) r) = 0) ->
+    forall p, In p (flat_map (fun e => DhpProofsC03.retired_ev (snd e)) (Conc.trace conf)) ->
+      In p (disposed_of (Conc.trace conf)) \/
+      (exists r, on_tlist (Conc.shared conf) r /\ In p (seq_final c r (Conc.shared conf))).
+  Proof. exact (dhp_retired_conserved_detached dhp_oob_false). Qed.
 End Cons.
